@@ -72,7 +72,7 @@ Proof. exact executor_never_stalls_in_order. Qed.
 Print Assumptions C07_executor_never_stalls_in_order.
 
 (* ------------------------------------------------------------------ out-of-order *)
-(** [wf_ooo v]: the view uses no push_async / append call pattern and a boundary whose future
+(** [wf_ooo v]: the view uses no raw push_async node (no view does in an out-of-order stream) and a boundary whose future
     yields None has a fallback without futures.  [apply_scripts h [] None]: what a browser has
     after parsing the concatenated stream [h] — text is appended to the document, a <template>
     is inert, its script replaces the marked fallback in the document parsed so far ([None]: a
